@@ -17,7 +17,9 @@ func init() {
 	engines["C15"] = RunHistReuse
 	engines["C16"] = func(r *Run) {
 		if r.C.Intn("c16eng", 4) == 3 {
-			r.onlyOracles = map[string]bool{"held-value": true}
+			// the stream clause: delivered values must not depend on the stream recycling its chunk buffers - a value
+			// that changes while held, or whose content is another chunk's data
+			r.onlyOracles = map[string]bool{"held-value": true, "history/documents": true, "history/prefix": true}
 			RunStream(r)
 			return
 		}
